@@ -136,6 +136,8 @@ def do_native(s, prop, obs, tier, jobs):
     for o in obs:
         if o["pkg"] not in exes:
             exes[o["pkg"]] = run_native.build(s, o["pkg"], log)
+    if any(o.get("bins") for o in obs):
+        run_native.build_bins(s, log)
     for o in obs:
         to = o.get("timeout_thorough", 1500) if tier == "thorough" else o.get("timeout", 240)
         r = run_native.run_obligation(s, exes[o["pkg"]], o["test"], tier, jobs, to, log, progress=bool(o.get("crash_is_violation")))
